@@ -31,6 +31,20 @@ func runC07(cfg runCfg) error {
 			c.Op = "Exists"
 		}
 		c07One(run, c, false)
+		// a result gathered from SEVERAL lists that together exceed the initial result capacity (seed C18-6: a list that
+		// straddles the buffer boundary must not be cut)
+		if r.chance(0.02) {
+			var secs []interface{}
+			for j, ns := 0, 2+r.Intn(3); j < ns; j++ {
+				var items []interface{}
+				for q, nq := 0, 9+r.Intn(14); q < nq; q++ {
+					items = append(items, float64(100*j+q))
+				}
+				secs = append(secs, map[string]interface{}{"item": items})
+			}
+			sm := map[string]interface{}{"doc": map[string]interface{}{"section": secs}}
+			c07One(run, kvCase{Op: "ValuesForPath", Map: sm, Path: r.pick([]string{"doc.section.item", "doc.*.item", "*.*.*"}), Sep: ":"}, false)
+		}
 		// two un-indexed -> indexed transitions in one path, several parents at the outer one and several values under an
 		// earlier parent at the inner one (seed C07-5: a buffer shared between the nested look-aheads)
 		if r.chance(0.03) {
